@@ -1088,8 +1088,14 @@ func c13Singles(tier string) []c13Single {
 	return out
 }
 
-// runBoth analyses and runs a program on both backends; ok=false when it was not accepted.
-func runBoth(text string, r *Result, what string) (ot, ov Obs, ok bool) {
+type backendObs struct {
+	n string
+	o Obs
+}
+
+// runSel analyses a program and runs it on the selected backend; ok=false when it was not
+// accepted. (One backend per case: see backendNames in c12.go.)
+func runSel(text string, r *Result, what, backend string) (sel []backendObs, ok bool) {
 	a := Analyze(map[string]string{"main": text}, true)
 	if a.Obs.Class == "HOST-PANIC" {
 		r.Note("analyzer-panic(C05):"+what, 1)
@@ -1102,16 +1108,13 @@ func runBoth(text string, r *Result, what string) (ot, ov Obs, ok bool) {
 		}
 		return
 	}
-	ot = RunTree(a, defaultOpts())
-	ov = RunVM(a, defaultOpts())
-	r.Obs(ov)
-	r.Trans(4)
-	return ot, ov, true
+	return []backendObs{{backend, runOn(backend, a, r)}}, true
 }
 
 func c13ProgEq(tier string, idx int, r *Result) {
+	backend := backendNames[idx%2]
 	s := c13Universe(tier)
-	p := c13Pairs(tier)[idx]
+	p := c13Pairs(tier)[idx/2]
 	t := s.types[p.ti]
 	a, b := s.valuesOf(t)[p.i], s.valuesOf(t)[p.j]
 	pb := &progBuilder{}
@@ -1119,17 +1122,14 @@ func c13ProgEq(tier string, idx int, r *Result) {
 	sb := bindStmt("b", b, t, pb)
 	text := fmt.Sprintf("fn main() {\n    %s\n    %s\n    %s\n    println(a == b, b == a, a != b, a == a);\n}\n", strings.Join(pb.pre, "\n    "), sa, sb)
 	r.Sample(text)
-	ot, ov, ok := runBoth(text, r, "prog-eq")
+	sel, ok := runSel(text, r, "prog-eq", backend)
 	if !ok {
 		return
 	}
 	eq := mEqual(a, b)
 	want := fmt.Sprintf("%v %v %v true\n", eq, eq, !eq)
 	why := "why:" + diffWhy(a, b)
-	for _, bo := range []struct {
-		n string
-		o Obs
-	}{{"tree", ot}, {"vm", ov}} {
+	for _, bo := range sel {
 		tags := []string{"backend:" + bo.n, why}
 		if cc := crashClass(bo.o); cc != "" {
 			capFail(r, cc, []string{"backend:" + bo.n}, text, bo.o.String())
@@ -1159,12 +1159,13 @@ func c13ProgEq(tier string, idx int, r *Result) {
 			capFail(r, class, tags, text, fmt.Sprintf("printed %q, expected %q (a == b, b == a, a != b, a == a)", bo.o.Out, want))
 		}
 	}
-	r.Distinct("prog-eq|" + typeKindTag(t) + "|" + why + "|" + ov.Key() + "|" + ot.Out)
+	r.Distinct("prog-eq|" + backend + "|" + typeKindTag(t) + "|" + why + "|" + sel[0].o.Key())
 }
 
 func c13ProgJSON(tier string, idx int, r *Result) {
+	backend := backendNames[idx%2]
 	s := c13Universe(tier)
-	p := c13Singles(tier)[idx]
+	p := c13Singles(tier)[idx/2]
 	t := s.types[p.ti]
 	v := s.valuesOf(t)[p.i]
 	// ranges: to_json of a list of ranges and range.to_string are member-table matters (C18)
@@ -1189,17 +1190,14 @@ func c13ProgJSON(tier string, idx int, r *Result) {
 	}
 	text := fmt.Sprintf("fn main() {\n    %s\n    %s\n%s}\n", strings.Join(pb.pre, "\n    "), bind, body)
 	r.Sample(text)
-	ot, ov, ok := runBoth(text, r, "prog-json")
+	sel, ok := runSel(text, r, "prog-json", backend)
 	if !ok {
 		return
 	}
 	wantJSON, _ := jsonOf(v)
 	disp := displays(v)
 	outs := map[string]string{}
-	for _, bo := range []struct {
-		n string
-		o Obs
-	}{{"tree", ot}, {"vm", ov}} {
+	for _, bo := range sel {
 		tags := append([]string{"backend:" + bo.n}, jsonHas(v)...)
 		if cc := crashClass(bo.o); cc != "" {
 			capFail(r, cc, tags, text, bo.o.String())
@@ -1245,18 +1243,27 @@ func c13ProgJSON(tier string, idx int, r *Result) {
 			}
 		}
 	}
-	if hasToString && ot.Class == "ok" && ov.Class == "ok" && outs["tree"] != outs["vm"] {
-		if !(v.hasWideObject() && inSet(outs["tree"], disp) && inSet(outs["vm"], disp)) {
-			capFail(r, "DISPLAY:backends-differ", []string{"kind:" + typeKindTag(t)}, text, fmt.Sprintf("to_string: vm %q, tree %q", outs["vm"], outs["tree"]))
+	// both backends render the value identically: decided in the VM case, which also runs the
+	// interpreter (it cannot take the worker down)
+	if vmOut, okV := outs["vm"]; hasToString && okV && sel[0].o.Class == "ok" {
+		if tsel, okT := runSel(text, r, "prog-json", "tree"); okT && tsel[0].o.Class == "ok" {
+			treeOut := ""
+			if i := strings.LastIndex(tsel[0].o.Out, "@@S:"); i >= 0 {
+				treeOut = strings.TrimSuffix(tsel[0].o.Out[i+4:], "\n")
+			}
+			if treeOut != vmOut && !(v.hasWideObject() && inSet(treeOut, disp) && inSet(vmOut, disp)) {
+				capFail(r, "DISPLAY:backends-differ", []string{"kind:" + typeKindTag(t)}, text, fmt.Sprintf("to_string: vm %q, tree %q", vmOut, treeOut))
+			}
 		}
 	}
-	r.Distinct("prog-json|" + typeKindTag(t) + "|" + jsonWhy(v) + "|" + ov.Class + "|" + ot.Class + "|" + ov.Out)
+	r.Distinct("prog-json|" + backend + "|" + typeKindTag(t) + "|" + jsonWhy(v) + "|" + sel[0].o.Class + "|" + sel[0].o.Out)
 }
 
 // c13ProgClone: a literal evaluated twice (function called twice) yields independent values.
 func c13ProgClone(tier string, idx int, r *Result) {
+	backend := backendNames[idx%2]
 	s := c13Universe(tier)
-	p := c13Singles(tier)[idx]
+	p := c13Singles(tier)[idx/2]
 	t := s.types[p.ti]
 	v := s.valuesOf(t)[p.i]
 	var mut string
@@ -1285,14 +1292,11 @@ func c13ProgClone(tier string, idx int, r *Result) {
 	e := pb.expr(v, t)
 	text := fmt.Sprintf("fn mk() -> %s {\n    %s\n    %s\n}\nfn main() {\n    let a = mk();\n    let b = mk();\n    %s\n    println(b == mk(), a == b);\n}\n", t, strings.Join(pb.pre, "\n    "), e, mut)
 	r.Sample(text)
-	ot, ov, ok := runBoth(text, r, "prog-clone")
+	sel, ok := runSel(text, r, "prog-clone", backend)
 	if !ok {
 		return
 	}
-	for _, bo := range []struct {
-		n string
-		o Obs
-	}{{"tree", ot}, {"vm", ov}} {
+	for _, bo := range sel {
 		tags := []string{"backend:" + bo.n, "kind:" + typeKindTag(t)}
 		if cc := crashClass(bo.o); cc != "" {
 			capFail(r, cc, tags, text, bo.o.String())
@@ -1307,7 +1311,7 @@ func c13ProgClone(tier string, idx int, r *Result) {
 			capFail(r, "CLONE-PROGRAM:literal-shares-state", tags, text, fmt.Sprintf("printed %q: after mutating the first result of mk() the second one no longer equals a fresh mk()", bo.o.Out))
 		}
 	}
-	r.Distinct("prog-clone|" + typeKindTag(t) + "|" + ov.Key() + "|" + ot.Out)
+	r.Distinct("prog-clone|" + backend + "|" + typeKindTag(t) + "|" + sel[0].o.Key())
 }
 
 // exprNoPre: expression for v without helper statements ("" when it needs some).
@@ -1327,9 +1331,9 @@ func init() {
 			{Name: "clone-mutation", Count: nt, Run: c13Clone},
 			{Name: "json-roundtrip", Count: nt, Run: c13JSON},
 			{Name: "display", Count: nt, Run: c13Display},
-			{Name: "prog-eq", Count: func(tier string) int { return len(c13Pairs(tier)) }, Run: c13ProgEq},
-			{Name: "prog-json-string", Count: func(tier string) int { return len(c13Singles(tier)) }, Run: c13ProgJSON},
-			{Name: "prog-clone", Count: func(tier string) int { return len(c13Singles(tier)) }, Run: c13ProgClone},
+			{Name: "prog-eq", Count: func(tier string) int { return 2 * len(c13Pairs(tier)) }, Run: c13ProgEq},
+			{Name: "prog-json-string", Count: func(tier string) int { return 2 * len(c13Singles(tier)) }, Run: c13ProgJSON},
+			{Name: "prog-clone", Count: func(tier string) int { return 2 * len(c13Singles(tier)) }, Run: c13ProgClone},
 		}}
 	})
 }
